@@ -235,8 +235,9 @@ def run(ctx, chk):
         got = rows.get(cls)
         chk.ob('C15.N3', 'manager:%s' % cls, got is not None and all(r[0] == 'broadcast' and r[1] == 'leave' for r in got), tmb.where(0),
                'on %s the manager does %s (must broadcast ThreadAbort and leave the loop)' % (cls, sorted(got) if got else 'nothing: no such row'))
-    chk.ob('C15.N3', 'manager:joins-all-handles', pushes == spawns and spawns >= 2 and join_loop_over_handles(tmb), tmb.where(0),
-           '%d spawn(s), %d handle(s) kept, joined in a loop after the manager loop: %s' % (spawns, pushes, join_loop_over_handles(tmb)))
+    n_joined, n_handles = joined_handles(fb, tmb)
+    chk.ob('C15.N3', 'manager:joins-all-handles', n_joined == n_handles and n_handles >= 2 and join_loop_over_handles(tmb), tmb.where(0),
+           '%d thread handle(s) obtained, %d flow into a join; joined in a loop after the manager loop: %s' % (n_handles, n_joined, join_loop_over_handles(tmb)))
     chk.tables['manager'] = {str(k): sorted(v) for k, v in rows.items()}
 
     # ------------------------------------------------------------ N4 broadcast
@@ -393,6 +394,13 @@ def explicit_loop_broadcast(fb, chk, b, ids):
             if n and n[0] in ('eq', 'ne') and n[1][0] == 't' and n[1][1] == 'discr' and 'next#' in fmt(n[1]) and n[2] == main_discr:
                 truth = (op == '!=' and set(v) == {0}) or (op == '==' and v == 1)
                 is_main = truth if n[0] == 'eq' else not truth
+            # `if let ChannelId::MainThread = id` / `match id { .. }`: a switch on the discriminant of the iterated id
+            if is_main is None and t[0] == 't' and t[1] == 'discr' and 'next#' in fmt(t) and main_discr is not None and \
+                    not (t[2][0][0] == 't' and t[2][0][1] == 'call') and 'Some).0' in fmt(t):
+                if op == '==':
+                    is_main = (v == main_discr)
+                elif main_discr in v:
+                    is_main = False
             n2 = common.cmp_norm(t)
             if n2 and n2[0] in ('eq', 'ne') and is_main is None:
                 sides = [x for x in (n2[1], n2[2]) if x[0] == 'agg' and x[1].endswith('ChannelId')]
@@ -535,6 +543,35 @@ def context_dropped_on_all_exits(b):
     return True, 'Context _%d is dropped on every path to return and to resume (drop blocks %s)' % (ctx_local, sorted(drops))
 
 
+def joined_handles(fb, b):
+    """(number of thread handles obtained by the manager that flow into a JoinHandle::join, number obtained): a handle is the
+    result of thread::spawn or of a workspace helper that returns a JoinHandle"""
+    srcs = []
+    for bb, t, fn in b.calls():
+        if not fn:
+            continue
+        nm = mir.callee_name(fn)
+        dty = b.tystr(b.locals[t['dest']['l']]['ty'])
+        if nm.endswith('thread::spawn') or ('JoinHandle' in dty and fb.body(nm) is not None and
+                                            common.reaches_call(fb, fb.body(nm), lambda n: n.endswith('thread::spawn'))):
+            srcs.append(t['dest']['l'])
+    joined = 0
+    for s_ in srcs:
+        reach = common.local_flow(b, {s_})
+        ok = False
+        for bb, t, fn in b.calls():
+            if not fn:
+                continue
+            nm = mir.callee_name(fn)
+            ls = [l for a in t['args'] for l in common._op_locals(a)]
+            if nm.endswith('JoinHandle::<T>::join') and any(l in reach for l in ls):
+                ok = True
+            if nm.split('::')[-1] in ('for_each', 'map', 'try_for_each') and any(l in reach for l in ls):
+                ok = True       # (that the closure joins is checked by join_loop_over_handles)
+        joined += ok
+    return joined, len(srcs)
+
+
 def join_loop_over_handles(b):
     """is there a loop after the manager loop whose body calls JoinHandle::join?"""
     for tail, head in b.back_edges():
@@ -642,7 +679,7 @@ def timeout_value(fb, holder, v):
         for b in fb.bodies(common.DAEMON):
             for bb, t, fn in common.user_calls(b):
                 if fn and mir.callee_name(fn) == holder.path and idx is not None:
-                    for q in common.mk_engine(fb, no_inline=lambda x: True).run(b):
+                    for q in common.mk_engine(fb, no_inline=lambda x: x.path == holder.path).run(b):
                         for ef in q.effects:
                             if ef['kind'] == 'call' and ef['callee'] == holder.path:
                                 l2 = common.lin_time(ef['args'][idx])
